@@ -245,4 +245,8 @@ _cut = _c10.find(' Partial, named: "restores the previous printed tree"')
 PROPS['C10']['explanation'] = (_c10[:_cut] if _cut >= 0 else _c10) + (' C10_insert_then_delete_restores_the_printed_tree: the printed tree (model of Display) and the tree itself up to flags and dirty marks are restored.' + UNIQUE + ' Display/dump equality before and after on the REAL router is compared by the Noop and Roundtrip channels every run.')
 PROPS['C15']['explanation'] += (' C15_canonical_tree_is_unique: the canonical tree of a route set is unique.' + UNIQUE)
 
+# C13(d) is a statement about the walk with constraints: judge it with all walk channels
+PROPS['C13']['primary'] = PROPS['C13']['primary'] + [k for k in ('WalkGenuine', 'WalkPriority') if k not in PROPS['C13']['primary']]
+PROPS['C13']['secondary'] = PROPS['C13']['secondary'] + [k for k in WALK_SECONDARY if k not in PROPS['C13']['secondary']]
+
 NOT_APPLICABLE = {}
